@@ -1,7 +1,7 @@
 #!/bin/bash
 # Re-runs every stored seeded change against the check of its property
 # (quick tier, short budget) and reports which are detected. /repo is untouched.
-cd /verif || exit 2
+cd "$(dirname "$(readlink -f "$0")")/.." || exit 2
 secs=${1:-15}
 miss=0; tot=0
 for d in seeded/*/; do
@@ -9,7 +9,7 @@ for d in seeded/*/; do
   prop=$(python3 -c "import json;print(json.load(open('$d/meta.json'))['property'])")
   extra=$(python3 -c "import json;print(json.load(open('$d/meta.json')).get('check',''))")
   chk=${extra:-$prop}
-  out=$(tools/try_patch.sh "$d/patch.diff" "$secs" $chk 2>&1 | head -1)
+  out=$(./tools/try_patch.sh "$d/patch.diff" "$secs" $chk 2>&1 | head -1)
   tot=$((tot+1))
   case "$out" in *"exit=1"*) echo "DETECTED $name :: ${out:0:120}";; *) echo "MISSED   $name :: ${out:0:160}"; miss=$((miss+1));; esac
 done
